@@ -643,6 +643,12 @@ func (s *Source) signalDelivery() {
 // guarantee no leak.
 func (s *Source) deliverDeferredAcks() {
 	defer close(s.deliveryDone)
+	// undelivered is set once an ack had to be dropped (retries exhausted, stream
+	// torn down, plugin gone). From then on no later ack is sent either: acks are
+	// cumulative for the plugin, so delivering ack k+1 after dropping ack k would
+	// present a gap in the ack sequence (invariant 4). Dropping the rest is
+	// benign - the positions are durable and a restart re-delivers them.
+	undelivered := false
 	for {
 		s.ackMu.Lock()
 		queue := s.deferredAckQueue
@@ -651,7 +657,10 @@ func (s *Source) deliverDeferredAcks() {
 		s.ackMu.Unlock()
 
 		for _, positions := range queue {
-			s.deliverOneAck(positions)
+			if undelivered {
+				continue
+			}
+			undelivered = !s.deliverOneAck(positions)
 		}
 
 		if len(queue) > 0 {
@@ -674,7 +683,8 @@ func (s *Source) deliverDeferredAcks() {
 }
 
 // deliverOneAck delivers one previously-queued Ack call's positions to the
-// plugin now that the resulting position is known durable.
+// plugin now that the resulting position is known durable. It reports whether
+// the ack was actually delivered (false: it was dropped).
 //
 // Invariant 3 (at-least-once) at a snapshot→CDC handoff: while the plugin is
 // running, a transient stream.Send failure is RETRIED with bounded backoff
@@ -694,30 +704,30 @@ func (s *Source) deliverDeferredAcks() {
 // unbuffered errs channel that nothing is reading, a self-inflicted deadlock.
 // The stream must stay open during Teardown's bounded drain (Teardown cancels
 // streamCtx only after that drain) precisely so these final sends can succeed.
-func (s *Source) deliverOneAck(positions []opencdc.Position) {
+func (s *Source) deliverOneAck(positions []opencdc.Position) (delivered bool) {
 	attempt := 0
 	for {
 		cleanup, err := s.preparePluginCall()
 		if err != nil {
 			// Plugin already torn down; benign (position durable).
 			cleanup()
-			return
+			return false
 		}
 		if s.stream == nil {
 			cleanup()
-			return
+			return false
 		}
 		sendErr := s.stream.Send(pconnector.SourceRunRequest{AckPositions: positions})
 		cleanup()
 		if sendErr == nil {
-			return // delivered
+			return true // delivered
 		}
 
 		// If the stream is already being torn down, every further send will
 		// resolve to ctx.Canceled the same way; stop retrying and drop
 		// (benign — the position is durable, restart re-delivers).
 		if s.streamTornDown() {
-			return
+			return false
 		}
 
 		attempt++
@@ -730,7 +740,7 @@ func (s *Source) deliverOneAck(positions []opencdc.Position) {
 					Msg("exhausted retries delivering deferred ack to a running source connector plugin; escalating (stream appears broken)")
 				s.escalateDeferredAckFailure(sendErr)
 			}
-			return
+			return false
 		}
 
 		s.Instance.logger.Debug(context.Background()).Err(sendErr).
@@ -738,7 +748,7 @@ func (s *Source) deliverOneAck(positions []opencdc.Position) {
 			Msg("transient failure delivering deferred ack to running source connector plugin; retrying")
 		if !s.backoffDeferredAck(attempt) {
 			// Backoff aborted because the stream was torn down; drop (benign).
-			return
+			return false
 		}
 	}
 }
